@@ -62,16 +62,25 @@ def _values(amp, phase):
     return [AMPS[amp] * WAVE[(f + phase) % len(WAVE)] for f in range(NFRAMES)]
 
 
-def _lis(chans, xin=False):
-    """chans: [(mnem, [values])]; direct X DEPT from 1000 FEET down by 1 FOOT per frame (an up log), recorded in FEET or (xin) in tenth-inches."""
+def _cons():
+    """A CONS table with a few of the constants the API header is filled from."""
+    rows = []
+    for m, v in ((b'CN  ', b'Company name'), (b'WN  ', b'Well name'), (b'FN  ', b'Field name'), (b'HIDE', b'Log Title')):
+        rows.append((m, [(b'STAT', 65, b'ALLO', b'    '), (b'PUNI', 65, b'    ', b'    '), (b'TUNI', 65, b'    ', b'    '), (b'VALU', 65, v, b'    ')]))
+    return rows
+
+
+def _lis(chans, xin=False, down=False):
+    """chans: [(mnem, [values])]; direct X DEPT from 1000 FEET by 1 FOOT per frame, decreasing (an up log) or increasing (down), recorded in FEET
+    or (xin) in tenth-inches."""
     xu, k = (b'.1IN', 120) if xin else (b'FEET', 1)
-    dfsr = L.dfsr([(b'DEPT', xu, 4, 1, 68)] + [(m, b'MV  ', 4, 1, 68) for m, _ in chans], False, up=True, spacing=k, depth_rc=68,
+    dfsr = L.dfsr([(b'DEPT', xu, 4, 1, 68)] + [(m, b'MV  ', 4, 1, 68) for m, _ in chans], False, up=not down, spacing=k, depth_rc=68,
                   spacing_units=xu, depth_units=xu)
     lrs = [L.file_head_tail(128), dfsr]
     for r0 in range(0, NFRAMES, 8):
         frames = []
         for f in range(r0, min(NFRAMES, r0 + 8)):
-            frames.append(L.encode68(float(k * (1000 - f))) + b''.join(L.encode68(v[f]) for _, v in chans))
+            frames.append(L.encode68(float(k * (1000 + f if down else 1000 - f))) + b''.join(L.encode68(v[f]) for _, v in chans))
         lrs.append(L.data_record(frames))
     lrs.append(L.file_head_tail(129))
     data, pos = L.physical(lrs, False, None)
@@ -80,6 +89,10 @@ def _lis(chans, xin=False):
 
 
 def _plot(ncurves, t0, t1, m0, m1, amp, same_outp, xin=False):
+    # an up or a down log, with or without the API header (a CONS table handed to the plotter): both follow from the other selectors so
+    # that every combination of the two occurs without multiplying the cases
+    down = (m1 + t1 + amp) % 2 == 1
+    cons = (m0 + amp) % 2 == 1
     curves = [(b'AAAA', t0, m0), (b'AAAA' if same_outp else b'BBBB', t1, m1)][:ncurves]
     chans = [(b'AAAA', _values(amp, 0))]
     if ncurves == 2 and not same_outp:
@@ -87,11 +100,13 @@ def _plot(ncurves, t0, t1, m0, m1, amp, same_outp, xin=False):
     film = _film()
     plot = Plot.PlotReadLIS(_table(b'FILM', film), _table(b'PRES', _pres(curves)))
     cfg = FILMCfg.FilmCfgLISRead(_table(b'FILM', film))
-    lis, index = _lis(chans, xin)
+    lis, index = _lis(chans, xin, down)
     out = io.StringIO()
     fid = Mnem.Mnem(b'1   ')
     for ilp in index.genLogPasses():
-        plot.plotLogPassLIS(lis, ilp.logPass, EngVal.EngVal(1000.0, b'FEET'), EngVal.EngVal(1000.0 - (NFRAMES - 1), b'FEET'), fid, out, frameStep=1, title='verif')
+        x_stop = 1000.0 + (NFRAMES - 1) if down else 1000.0 - (NFRAMES - 1)
+        plot.plotLogPassLIS(lis, ilp.logPass, EngVal.EngVal(1000.0, b'FEET'), EngVal.EngVal(x_stop, b'FEET'), fid, out, frameStep=1, title='verif',
+                            lrCONS=[_table(b'CONS', _cons())] if cons else None)
     mark.hit()
     try:
         root = ET.fromstring(out.getvalue().split('?>', 1)[1].split('>', 1)[1] if out.getvalue().lstrip().startswith('<?xml') and '<!DOCTYPE' in out.getvalue()[:300] else out.getvalue())
